@@ -28,7 +28,8 @@ RULE = (
     "settings {default; free/SMT instantiations 1 and 3; optimized Z3 queries off; unique trees on; insertion methods 1, 3; unsat support on} "
     "(all settings on a core of constraints, the default on all) x up to 5 (thorough 8) consecutive solve() calls, every returned tree checked; "
     "random answers: a fixed default schedule for all instances, plus every single deviation within the first 12 (thorough 30) choice points on the "
-    "core; a schema is a constraint schema; non-trivial iff the solver returned at least one solution for it"
+    "core; grammar kv (header:word=number) x 9 nested-SMT scenarios (an atom over an element and one over a part of it that is tied to the header) x "
+    "4 settings x 9 (thorough 14) calls; a schema is a constraint schema; non-trivial iff the solver returned at least one solution for it"
 )
 ASSUMPTIONS = [
     "reference semantics mc/ref/sem.py (bound to the specification by C03); EITHER accepts the solution",
@@ -43,6 +44,7 @@ SETTINGS = [
     ("default", {}),
     ("free1", {"max_number_free_instantiations": 1}),
     ("free3-smt3", {"max_number_free_instantiations": 3, "max_number_smt_instantiations": 3}),
+    ("free1-smt3", {"max_number_free_instantiations": 1, "max_number_smt_instantiations": 3}),
     ("smt1", {"max_number_smt_instantiations": 1}),
     ("noopt", {"enable_optimized_z3_queries": False}),
     ("unique", {"enforce_unique_trees_in_queue": True}),
@@ -76,9 +78,34 @@ def _nq(f):
     return n
 
 
+def scenarios():
+    """nested SMT constraints: one atom over an element and one over a proper part of it that is tied to something outside the element"""
+    ln = lambda v, op, k: ("smt", [op, ["str.len", ["v", v]], ["i", k]])
+    eqv = lambda a, b: ("smt", ["=", ["v", a], ["v", b]])
+    q = lambda k, T, v, inv, body, m=None: (k, T, v, m, inv, body)
+    tie = q("forall", "<hdr>", "h", "start", q("forall", "<num>", "n", "start", eqv("n", "h")))
+    tie_succ = q("forall", "<hdr>", "h", "start", q("forall", "<num>", "n", "start", ("smt", ["=", ["str.to.int", ["v", "n"]], ["+", ["str.to.int", ["v", "h"]], ["i", 1]]])))
+    out = []
+    for k in (6, 8):
+        out.append(("and", q("forall", "<item>", "i", "start", ln("i", "=", k)), tie))
+        out.append(("and", tie, q("forall", "<item>", "i", "start", ln("i", "=", k))))
+        out.append(q("forall", "<item>", "i", "start", ("and", ln("i", "=", k), q("forall", "<num>", "n", "i", q("forall", "<hdr>", "h", "start", eqv("n", "h"))))))
+    out.append(("and", q("forall", "<item>", "i", "start", ln("i", ">=", 7)), tie_succ))
+    mw = (("b", "<word>", "w"), ("t", "="), ("b", "<num>", "n"))
+    out.append(q("forall", "<item>", "i", "start", ("and", ln("w", "=", 3), q("forall", "<hdr>", "h", "start", eqv("n", "h"))), mw))
+    out.append(("and", q("forall", "<item>", "i", "start", ln("i", "=", 7)), q("forall", "<item>", "j", "start", q("forall", "<hdr>", "h", "start", eqv("n", "h")), mw)))
+    return out
+
+
+SCEN_SETTINGS = ["default", "free1-smt3", "smt1", "noopt"]
+
+
 def instances(tier):
     """(grammar name, formula, setting name, deviations?)"""
     out = []
+    for f in scenarios():
+        for sname in SCEN_SETTINGS:
+            out.append(("kv", f, sname, False))
     for name in GRAMS:
         F = solver_formulas(name, tier)
         core = F[:: max(1, len(F) // (6 if tier == "quick" else 24))]
@@ -121,13 +148,13 @@ def run_instance(r, name, f, sname, deviate, tier):
     text = sem.to_isla(f)
     settings = dict(dict(SETTINGS)[sname])
     settings.setdefault("timeout_seconds", 4)
-    ncalls = 5 if tier == "quick" else 8
+    ncalls = (5 if tier == "quick" else 8) if name != "kv" else (9 if tier == "quick" else 14)
     case = dict(g=name, formula=f, setting=sname, script=[])
     sch = (name, sem.schema(f))
     r.state(name, text, sname)
 
     def one(script):
-        outs, info = solvdrv.drive(g, text, settings, ncalls, extra_calls=0, script=script, default_seed=SEED, call_cap=12.0 if tier == "quick" else 20.0, total_cap=24.0 if tier == "quick" else 60.0)
+        outs, info = solvdrv.drive(g, text, settings, ncalls, extra_calls=0, script=script, default_seed=SEED, call_cap=12.0 if tier == "quick" else 20.0, total_cap=(24.0 if tier == "quick" else 60.0) * (2 if name == "kv" else 1))
         r.transitions += info["steps"]
         c = dict(case, script=script)
         ntrees = 0
@@ -207,7 +234,7 @@ def replay(case):
     text = sem.to_isla(f)
     settings = dict(dict(SETTINGS)[case["setting"]])
     settings.setdefault("timeout_seconds", 4)
-    outs, info = solvdrv.drive(g, text, settings, 8, extra_calls=0, script=case.get("script", []), default_seed=SEED, call_cap=20.0, total_cap=120.0)
+    outs, info = solvdrv.drive(g, text, settings, 14, extra_calls=0, script=case.get("script", []), default_seed=SEED, call_cap=20.0, total_cap=120.0)
     for k, o in enumerate(outs):
         if o[0] == "tree":
             check_tree(r, name, cg, f, text, o[1], dict(case), k + 1, None)
